@@ -246,6 +246,7 @@ def check_all(ctx, module_suffixes=None, funcs=None, rules=('DEADPARAM', 'FORWAR
     out['returns'] = mixed_returns(ctx, funcs)
     out['shadow'] = instance_shadow_updates(ctx, funcs)
     out['lengths'] = stale_lengths(ctx, funcs)
+    out['bounds'] = index_vs_len(ctx, funcs)
     ctx.ok('FORWARD', f"option forwarding in {len(funcs)} functions",
            f"{out.get('params', 0)} parameters examined for use, {out.get('forwarded', 0)} arguments handed "
            f"down under a parameter name, {out.get('defaults', 0)} default pairs compared, "
@@ -486,4 +487,36 @@ def stale_lengths(ctx, funcs, rule='DEFUSE'):
                                   f"`{norm(st)}` is taken before `{norm(body[j])[:60]}` changes `{seq}`, and `{name}` is read after "
                                   f"that: the count belongs to the list as it was (a chain that standardisation shortens is treated "
                                   f"as longer than it is)", key=f"{rule}|{fi.qualname}|stale-len|{name}", where=common.loc(fi, st))
+    return n
+
+
+def index_vs_len(ctx, funcs, rule='BOUND'):
+    """`for i, x in enumerate(S): ... i == len(S)` can never be true (the
+    index stops at len(S) - 1): the branch it guards is dead.  Empty baseline."""
+    n = 0
+    for fi in funcs:
+        for lp in walk_local(fi.node):
+            if not (isinstance(lp, ast.For) and isinstance(lp.iter, ast.Call) and dotted(lp.iter.func) == 'enumerate'
+                    and lp.iter.args and isinstance(lp.target, ast.Tuple) and isinstance(lp.target.elts[0], ast.Name)):
+                continue
+            start = 0
+            for k in lp.iter.keywords:
+                if k.arg == 'start' and isinstance(k.value, ast.Constant):
+                    start = k.value.value
+            if len(lp.iter.args) > 1 and isinstance(lp.iter.args[1], ast.Constant):
+                start = lp.iter.args[1].value
+            idx, seq = lp.target.elts[0].id, norm(lp.iter.args[0])
+            for c in ast.walk(lp):
+                if isinstance(c, ast.Compare) and len(c.ops) == 1 and isinstance(c.ops[0], ast.Eq):
+                    sides = [c.left, c.comparators[0]]
+                    names = [s_ for s_ in sides if isinstance(s_, ast.Name) and s_.id == idx]
+                    lens = [s_ for s_ in sides if isinstance(s_, ast.Call) and dotted(s_.func) == 'len' and s_.args
+                            and norm(s_.args[0]) == seq]
+                    if names and lens:
+                        n += 1
+                        ctx.check(start >= 1, rule, f"{fi.qualname}: `{norm(c)}` can be true inside `for {idx}, ... in enumerate({seq})`",
+                                  f"enumerate starts at {start}",
+                                  f"`{norm(c)}`: the index of enumerate({seq}) runs from {start} to len({seq}) - 1{' + ' + str(start) if start else ''}, "
+                                  f"so this is never true and the branch for the LAST element never runs (text after the last match is "
+                                  f"neither a block nor reported)", key=f"{rule}|{fi.qualname}|index-eq-len|{idx}", where=common.loc(fi, c))
     return n
